@@ -69,6 +69,7 @@ func scanConcurrentCmd(args []string) int {
 		fmt.Fprintln(stderr, err)
 		return 3
 	}
+	recent := 0 // position of the foreign write made last
 	foreign := func() {
 		for j, m := 0, rng.Intn(4); j < m; j++ {
 			switch r := rng.Intn(10); {
@@ -77,14 +78,18 @@ func scanConcurrentCmd(args []string) int {
 				if stable[p] {
 					continue
 				}
-				var err error
-				if rng.Intn(3) == 0 {
-					err = retryRot(func() error { return eng.Delete(key(p)) })
-				} else {
-					err = retryRot(func() error { return eng.Put(key(p), []byte(fmt.Sprintf("volatile-%d", rng.Int()))) })
-				}
-				if err == nil {
-					log.ev(map[string]interface{}{"e": "wrote", "pos": p})
+				// one to three versions in a row: several entries newer than the scan's snapshot then stand side by side
+				for v, nv := 0, 1+rng.Intn(3); v < nv; v++ {
+					var err error
+					if rng.Intn(3) == 0 {
+						err = retryRot(func() error { return eng.Delete(key(p)) })
+					} else {
+						err = retryRot(func() error { return eng.Put(key(p), []byte(fmt.Sprintf("volatile-%d", rng.Int()))) })
+					}
+					if err == nil {
+						log.ev(map[string]interface{}{"e": "wrote", "pos": p})
+						recent = p
+					}
 				}
 			case r < 8:
 				eng.FlushImMemTables()
@@ -125,7 +130,12 @@ func scanConcurrentCmd(args []string) int {
 		}
 		foreign()
 		if *seeks && last < *n && rng.Intn(4) == 0 {
-			seekTo(last + 1 + rng.Intn(*n-last))
+			if recent > last && rng.Intn(2) == 0 {
+				// right onto the key that was just written (its new versions are invisible to this scan)
+				seekTo(recent)
+			} else {
+				seekTo(last + 1 + rng.Intn(*n-last))
+			}
 		} else {
 			it.Next()
 		}
